@@ -18,7 +18,7 @@ from ..runner import Batch, digest
 
 ID = "C14"
 TITLE = "Keyboard reads show exactly the held keys on strobed columns; events ordered"
-RULE = ("component runs: <=6 keys chosen to share rows and columns, both polarities, press/release thresholds 1..6, "
+RULE = ("component runs: <=6 keys (one run in eight: a block of 9-12 keys pressed and released as chords) chosen to share rows and columns, both polarities, press/release thresholds 1..6, "
         "repeat delay/interval from {1,2,6,24}x{1,2,6}, histories of 20-300 ops incl. chatter bursts, strobe changes "
         "mid-debounce and >=9 events without a consumer; non-trivial = at least one debounced press and one KIL read; "
         "distinct = distinct (config, history) hash. machine runs: firmware with KIL reads/strobes, key events, "
@@ -61,7 +61,14 @@ def _pick_keys(r: Rng) -> List[int]:
             code = (c << 3) | rw
             if machine.key_name(code):
                 keys.append(code)
-    return r.sample(keys, min(len(keys), r.range(2, 6)))
+    picked = r.sample(keys, min(len(keys), r.range(2, 6)))
+    rb = r.child("big")
+    if rb.chance(1, 8):
+        # a block of 9-12 keys for chords: more events in one scan than the queue holds
+        cols = rb.sample(list(range(10)), 4)
+        rows = rb.sample(list(range(8)), 3)
+        picked = [(c << 3) | rw for c in cols for rw in rows if machine.key_name((c << 3) | rw)]
+    return picked
 
 
 def generate(batch: str, r: Rng, idx: int, tier: str) -> Dict[str, Any]:
@@ -100,7 +107,8 @@ def generate(batch: str, r: Rng, idx: int, tier: str) -> Dict[str, Any]:
     ro = r.child("ops")
     while len(ops) < n:
         kind = ro.weighted([("tick", 30), ("press", 10), ("release", 8), ("read", 8), ("strobe", 4), ("chatter", 3),
-                            ("hold_run", 3), ("consume", 2), ("inject", 1), ("clrisr", 2), ("kbirq", 1), ("restart", 1)])
+                            ("hold_run", 3), ("consume", 2), ("inject", 1), ("clrisr", 2), ("kbirq", 1), ("restart", 1),
+                            ("chord", 3 if len(keys) >= 8 else 0)])
         if kind == "tick":
             ops.append(["tick"])
         elif kind == "press":
@@ -132,8 +140,25 @@ def generate(batch: str, r: Rng, idx: int, tier: str) -> Dict[str, Any]:
                 ops.append(["tick"])
         elif kind == "consume":
             ops.append(["consume"])
+        elif kind == "chord":
+            # every key of the block goes down (or up) between two scans
+            down = ro.chance(1, 2) or not held
+            for k in keys:
+                if down and k not in held:
+                    ops.append(["press", k])
+                    held.add(k)
+                elif not down and k in held:
+                    ops.append(["release", k])
+                    held.discard(k)
+            for _ in range(ro.range(1, max(cfg["press"], cfg["release"]) + 1)):
+                ops.append(["tick"])
         elif kind == "restart":
-            ops.append(["restart"])       # snapshot -> JSON -> a fresh matrix: nothing may change
+            if ro.chance(1, 2):
+                ops.append(["restart"])       # snapshot -> JSON -> a fresh matrix: nothing may change
+            else:
+                # ... or back into the same matrix after it lived on with other strobes and a few scans
+                ops.append(["restart", "used", ro.choice([0x00, 0xFF, ro.below(256)]), ro.choice([0x0, 0x7, ro.below(16)]),
+                            ro.range(0, 2)])
         elif kind == "inject":
             ops.append(["inject", ro.choice(keys), ro.chance(1, 3)])
         elif kind == "clrisr":
@@ -189,7 +214,13 @@ def _run_py(scn: Dict[str, Any]) -> List[list]:
         elif k == "restart":
             import json as _json
             saved = _json.loads(_json.dumps(h.snapshot_state()))
-            h = PCE500KeyboardHandler(None, columns_active_high=bool(cfg["active_high"]))
+            if len(op) > 1 and op[1] == "used":
+                h.handle_register_write(0xF0, op[2])
+                h.handle_register_write(0xF1, op[3])
+                for _ in range(op[4]):
+                    h.scan_tick()
+            else:
+                h = PCE500KeyboardHandler(None, columns_active_high=bool(cfg["active_high"]))
             h.load_state(saved)
             mx = h._matrix
         out.append([ret, state()])
@@ -348,6 +379,10 @@ def _check_kbd(scn: Dict[str, Any], hist: Dict[str, Any]) -> List[dict]:
                 if got is None:
                     n = int(ret or 0)
                     got = fifo[len(fifo) - n:] if 0 < n <= len(fifo) else ([] if n == 0 else None)
+                    if got is None and n == len(exp) and all(fifo.count(x) <= exp.count(x) for x in set(fifo)):
+                        # more events in one scan than the queue holds: the count and the survivors are all there
+                        # is to see (the queue policy clause below judges the survivors)
+                        got = list(exp)
                 if got is None or sorted(got) != sorted(exp):
                     gl = got or []
                     # classify the first discrepancy
